@@ -1,11 +1,250 @@
 import Driver.Json
+import OomdModel.Watcher
 
-/-! Driver glue for engine `watcher` (stub: not built yet). -/
+/-! Driver glue for engine `watcher` (C14): scenario + trace of the real FsDropInService in, verdict out.
+
+`holds`   – the clauses of C14 evaluated on what the harness saw, with an oracle that does not use the model:
+            after quiescence the drop-ins the probe tick shows, per base ruleset and as a multiset, are exactly
+            those of the valid non-dot files in the FINAL DIRECTORY LISTING (read back from the file system by the
+            harness; validity and targets are the generator's labels), each with its latest content; the start-up
+            probe shows the valid start-up files in reverse name order (LIFO of a name-ordered load).
+            A crash / `std::terminate` / TSan report / deadlock is a bad outcome (handled by the check runner and
+            repeated here as clause `alive`).
+`accepts` – the model can produce the trace.  With the trace hooks (`fixes/C14-hooks.patch`) the recorded order of
+            scheduled items and swaps is replayed: queue lengths must be those of a FIFO queue and the probe must
+            equal `OomdModel.Watcher.lww` of the recorded items, in order.  Without hooks the file-operation script
+            is turned into the canonical schedule (every event handled at once, ticks where the script has them)
+            and run through `OomdModel.Watcher.run Fixes.all`; the probe must equal the model's engine, in order –
+            except when the directory itself was removed (the moment of re-registration is a scheduling choice),
+            then as multisets. -/
 namespace Driver.Watcher
-open Lean
+open Lean OomdModel.Watcher
+
+structure Content where
+  cid : Nat
+  valid : Bool
+  kind : String
+  targets : List Nat
+deriving Repr
+
+def parseContents (j : Json) : List Content :=
+  match j with
+  | Json.obj kvs => kvs.toList.map fun (k, v) =>
+      { cid := k.toNat!, valid := jbool v "valid", kind := jstr v "kind", targets := (jarr v "targets").map asNat }
+  | _ => []
+
+def findC (cs : List Content) (cid : Nat) : Option Content := cs.find? (·.cid == cid)
+
+def targetsOf (cs : List Content) (cid : Nat) : List Nat :=
+  match findC cs cid with
+  | some c => if c.valid then c.targets else []
+  | none => []
+
+def dotName (n : String) : Bool := n.isEmpty || n.front == '.'
+
+/-- a probe segment (the prerun calls of one ruleset) → (cid, ruleset index in the file), none = a base ruleset -/
+def segKey (seg : Json) : Option (Nat × Nat) :=
+  match (asArr seg).map asNat |>.find? (· ≥ 100) with
+  | some i => some (i / 100, (i / 10) % 10)
+  | none => none
+
+/-- per base ruleset: the drop-in segments in evaluation order; `none` when an instance cannot be attributed -/
+def observedPerBase (cs : List Content) (probe : Json) : Option (List (Nat × Nat) × List (Nat × Nat)) :=
+  let keys := (asArr probe).filterMap segKey
+  let withBase := keys.map fun (c, r) => ((findC cs c).bind fun k => k.targets[r]?, (c, r))
+  if withBase.any (fun p => p.1.isNone) then none else
+  some ((withBase.filter (fun p => p.1 == some 0)).map (·.2), (withBase.filter (fun p => p.1 == some 1)).map (·.2))
+
+def lePair (a b : Nat × Nat) : Bool := a.1 < b.1 || (a.1 == b.1 && a.2 ≤ b.2)
+def sortPairs (l : List (Nat × Nat)) : List (Nat × Nat) := l.mergeSort lePair
+
+/-- the oracle: what the valid non-dot files of a directory listing contribute to base `b` (as a multiset) -/
+def expectedOfDir (cs : List Content) (dir : List (String × Nat)) (b : Nat) : List (Nat × Nat) :=
+  dir.flatMap fun (n, c) =>
+    if dotName n then [] else
+    ((targetsOf cs c).zipIdx.filter (fun q => q.1 == b)).map fun q => (c, q.2)
+
+/-- start-up oracle: files loaded in name order, each ruleset put in front -/
+def expectedStartup (cs : List Content) (dir : List (String × Nat)) (b : Nat) : List (Nat × Nat) :=
+  let sorted := dir.mergeSort (fun a b => decide (a.1 ≤ b.1))
+  (expectedOfDir cs sorted b).reverse
+
+def emptyCid : Nat := 999999   -- a truncated file (no table entry: loads as bad JSON)
+def unknownCid : Nat := 999998 -- bytes the scenario never wrote (harness problem)
+
+def parseDir (j : Json) : Option (List (String × Nat)) :=
+  match j with
+  | Json.arr a => some (a.toList.map fun e =>
+      let c := asInt ((asArr e).getD 1 Json.null)
+      (asStr ((asArr e).getD 0 Json.null), if c == -2 then emptyCid else if c < 0 then unknownCid else c.toNat))
+  | _ => none
+
+/-! ## model side -/
+
+def loadOf (cs : List Content) (cid : Nat) : Load Nat :=
+  match findC cs cid with
+  | some c =>
+    if c.valid then .unit cid
+    else if c.kind == "badnum" then .badNumber
+    else if c.kind == "json" || c.kind == "empty" || c.kind == "partial" || c.kind == "shape" then .badJson
+    else .rejected
+  | none => .badJson
+
+def modelPerBase (cs : List Content) (b : Nat) (act : List (String × Nat)) : List (Nat × Nat) :=
+  perBase (targetsOf cs) b act
+
+/-- simulated directory: exists?, files -/
+structure Fs where
+  present : Bool
+  files : List (String × Nat)
+
+def Fs.set (f : Fs) (n : String) (c : Nat) : Fs := { f with files := (f.files.filter (·.1 != n)) ++ [(n, c)] }
+def Fs.del (f : Fs) (n : String) : Fs := { f with files := f.files.filter (·.1 != n) }
+def Fs.get (f : Fs) (n : String) : Option Nat := (f.files.find? (·.1 == n)).map (·.2)
+def Fs.listing (cs : List Content) (f : Fs) : Option (List (String × Load Nat)) :=
+  if f.present then some (f.files.map fun (n, c) => (n, loadOf cs c)) else none
+
+def runSteps (s : St Nat) (steps : List (Step Nat)) : St Nat :=
+  match run Fixes.all s steps with
+  | .ok s' => s'
+  | .fatal => s
+
+/-- watcher events reach the service only while the watch is registered -/
+def watcher (s : St Nat) (steps : List (Step Nat)) : St Nat := if s.deleted then s else runSteps s steps
+
+/-- one whole `updateDropIns` (bounded loop until the main thread is back at `top`) -/
+def fullTick (cs : List Content) (fs : Fs) (s : St Nat) : St Nat :=
+  let d := fs.listing cs
+  let s1 := runSteps s [.main d]
+  let rec go (fuel : Nat) (s : St Nat) : St Nat :=
+    match fuel with
+    | 0 => s
+    | fuel + 1 => if s.pc == .top then s else go fuel (runSteps s [.main d])
+  go (s1.queue.length + s1.batch.length + 4) s1
+
+def canonical (cs : List Content) (ops : List Json) (rc : List Nat) (fs0 : Fs) (s0 : St Nat) : Fs × St Nat :=
+  (ops.zip rc).foldl (fun (acc : Fs × St Nat) (p : Json × Nat) =>
+    let (fs, s) := acc
+    let (op, ok) := p
+    let k := jstr op "op"
+    let name := jstr op "name"
+    let cid := jnat op "cid"
+    if k == "tick" then (fs, fullTick cs fs s)
+    else if ok == 0 then acc
+    else if k == "write" || k == "write2" then
+      let fs' := fs.set name cid
+      (fs', watcher s [.evAdd name .badJson, .evAdd name (loadOf cs cid)])
+    else if k == "movein" then
+      (fs.set name cid, watcher s [.evAdd name (loadOf cs cid)])
+    else if k == "rename" then
+      let a := jstr op "from"
+      let b := jstr op "to"
+      if a == b then acc else   -- rename(2) onto itself: success, nothing happens, no event
+      match fs.get a with
+      | some c => ((fs.del a).set b c, watcher s [.evRemove a, .evAdd b (loadOf cs c)])
+      | none => acc
+    else if k == "moveout" || k == "delete" then (fs.del name, watcher s [.evRemove name])
+    else if k == "trunc" then (fs.set name emptyCid, watcher s [.evAdd name .badJson])
+    else if k == "rmdir" then
+      ({ present := false, files := [] }, watcher s (fs.files.map (fun f => Step.evRemove f.1) ++ [.evSelf]))
+    else if k == "mkdir" then ({ fs with present := true }, s)
+    else if k == "rmsub" then (fs, watcher s [.evRemove name])
+    else acc) (fs0, s0)
+
+/-- hook trace → (items, fifo ok) -/
+def replayItems (items : List Json) : List (Item Nat) × Bool :=
+  let r := items.foldl (fun (acc : List (Item Nat) × Nat × Bool) (e : Json) =>
+    let (sched, qlen, ok) := acc
+    let a := asArr e
+    let w := asStr (a.getD 0 Json.null)
+    if w == "add" then
+      let tag := asStr (a.getD 1 Json.null)
+      let cid := (asInt (a.getD 2 Json.null)).toNat
+      (sched ++ [(tag, some cid)], qlen + 1, ok && asNat (a.getD 3 Json.null) == qlen + 1)
+    else if w == "rem" then
+      let tag := asStr (a.getD 1 Json.null)
+      (sched ++ [(tag, none)], qlen + 1, ok && asNat (a.getD 2 Json.null) == qlen + 1)
+    else if w == "swap" then (sched, 0, ok && asNat (a.getD 1 Json.null) == qlen)
+    else acc) ([], 0, true)
+  (r.1, r.2.2 && r.2.1 == 0)
+
+def pairsJson (l : List (Nat × Nat)) : Json := Json.arr (l.map fun p => Json.arr #[Json.num p.1, Json.num p.2]).toArray
 
 def handle (j : Json) : Json :=
-  Json.mkObj [("id", Json.str (jstr (jobj j "s") "id")), ("error", Json.str "engine watcher not implemented")]
+  let s := jobj j "s"
+  let t := jobj j "t"
+  let id := jstr s "id"
+  let cs := parseContents (jobj s "contents")
+  let outcome := jstr t "outcome"
+  let hasBadnum := cs.any (fun c => c.kind == "badnum")
+  if outcome != "ok" then
+    let cls := if outcome.startsWith "uncaught:" && hasBadnum then "stoi-escape" else "outcome:" ++ outcome
+    Driver.verdict id false false ["alive"] cls
+  else
+  let ops := jarr s "ops"
+  let rc := (jarr t "rc").map asNat
+  let initDir := parseDir (jobj s "init")
+  let recreate := ops.any (fun o => jstr o "op" == "rmdir") || initDir.isNone
+  let hooks := jbool t "hooks"
+  -- ---------------- holds: oracle from the final directory listing
+  let finalDir := (parseDir (jobj t "final_dir")).getD []
+  let unknownFinal := finalDir.any fun (_, c) => c == unknownCid
+  let obsB := observedPerBase cs (jobj t "probe_b")
+  let obsA := observedPerBase cs (jobj t "probe")
+  let exp0 := expectedOfDir cs finalDir 0
+  let exp1 := expectedOfDir cs finalDir 1
+  let (conv, extra, missing) := match obsB with
+    | none => (false, true, false)
+    | some (o0, o1) =>
+      let e := sortPairs exp0 ++ sortPairs exp1
+      let o := sortPairs o0 ++ sortPairs o1
+      (sortPairs o0 == sortPairs exp0 && sortPairs o1 == sortPairs exp1,
+       o.any (fun p => !e.contains p), e.any (fun p => !o.contains p))
+  let startupOk := match jobj t "probe0", initDir with
+    | Json.null, _ => true
+    | p0, some d =>
+      (match observedPerBase cs p0 with
+       | some (o0, o1) => o0 == expectedStartup cs d 0 && o1 == expectedStartup cs d 1
+       | none => false)
+    | p0, none => (observedPerBase cs p0) == some ([], [])
+  let invalidPresent := finalDir.any fun (n, c) => !dotName n && (targetsOf cs c).isEmpty && ((findC cs c).map (·.valid)) != some true
+  let violated := (if conv then [] else ["converged"]) ++ (if startupOk then [] else ["startup_sorted"])
+    ++ (if unknownFinal then ["harness_final_dir"] else [])
+  let cls :=
+    if !conv then
+      (if extra && !missing && invalidPresent then "invalid-rewrite-keeps-previous"
+       else if extra && missing then "extra-and-missing" else if extra then "extra-active"
+       else if missing then "missing-active" else "duplicate-active")
+    else if !startupOk then "startup-order" else ""
+  -- ---------------- accepts: model
+  let (accepts, how, modelOut) :=
+    if hooks then
+      let (sched, fifo) := replayItems (jarr t "items")
+      let act := lww sched
+      let m0 := modelPerBase cs 0 act
+      let m1 := modelPerBase cs 1 act
+      (fifo && obsB == some (m0, m1), "hooks", m0 ++ m1)
+    else
+      let fs0 : Fs := match initDir with | some d => { present := true, files := d } | none => { present := false, files := [] }
+      match init Fixes.all (fs0.listing cs) with
+      | .fatal => (false, "canonical", [])
+      | .ok s0 =>
+        let s0 := if jbool s "probe0" then fullTick cs fs0 s0 else s0
+        let (fs, s1) := canonical cs ops rc fs0 s0
+        let s2 := fullTick cs fs (fullTick cs fs s1)
+        let m0 := modelPerBase cs 0 s2.active
+        let m1 := modelPerBase cs 1 s2.active
+        let ok := match obsB with
+          | none => false
+          | some (o0, o1) =>
+            if recreate then sortPairs o0 == sortPairs m0 && sortPairs o1 == sortPairs m1
+            else o0 == m0 && o1 == m1
+        (ok && s2.queue.isEmpty, "canonical", m0 ++ m1)
+  Driver.verdict id accepts violated.isEmpty violated cls
+    [("how", Json.str how), ("recreate", Json.bool recreate), ("drift", Json.bool (obsA != obsB)),
+     ("active", Json.num ((exp0 ++ exp1).length)), ("model", pairsJson modelOut),
+     ("observed", match obsB with | some (a, b) => pairsJson (a ++ b) | none => Json.null),
+     ("expected", pairsJson (exp0 ++ exp1))]
 
 end Driver.Watcher
 
